@@ -367,6 +367,12 @@ func (w *World) exportImport(c string) (res string, errStr string) {
 	}
 	w.reexport[c] = "same"
 	for _, m := range genesisModules {
+		// the rate-limit module re-derives an uninitialised hour epoch (epoch number 0, as in the default test
+		// application) from the importing block's time/height, so its re-export legitimately differs here; the
+		// transfermw family checks it with an initialised epoch
+		if m == "ratelimit" {
+			continue
+		}
 		if same[m] != "same" {
 			w.reexport[c] = "differs:" + m
 		}
